@@ -221,6 +221,7 @@ func genNesting(t *rapid.T) string {
 
 // mutateText applies one text-level mutation to a valid text.
 func mutateText(t *rapid.T, toks []model.Tok, ls layoutSpec) string {
+	ls.Inner = nil // token indices shift under the mutations below
 	switch rapid.IntRange(0, 5).Draw(t, "mutation") {
 	case 0: // delete a token
 		i := rapid.IntRange(0, len(toks)-1).Draw(t, "at")
@@ -288,7 +289,7 @@ func genC06(t *rapid.T) c06Case {
 			all = append(all, toks[i]...)
 			written = append(written, [2]int{msgs[i].Hdr.Stream, msgs[i].Hdr.Function})
 		}
-		s, _ := render(all, genLayout(t, all, true))
+		s, _ := render(all, genLayout(t, all, true, false, true))
 		return mkC06(s, "valid-text", written)
 	default:
 		sp := &rapidSpeller{t: t, sizes: rapid.Bool().Draw(t, "withSizes")}
@@ -298,7 +299,7 @@ func genC06(t *rapid.T) c06Case {
 		for i := range toks {
 			all = append(all, toks[i]...)
 		}
-		return mkC06(mutateText(t, all, genLayout(t, all, true)), "mutated-valid-text", nil)
+		return mkC06(mutateText(t, all, genLayout(t, all, true, false, true)), "mutated-valid-text", nil)
 	}
 }
 
